@@ -216,12 +216,20 @@ def run(ctx: Ctx):
     gs = [n for n in own_nodes(app.node) if isinstance(n, ast.Call) and call_name(n).endswith("grid_sample")]
     okg = len(gs) == 1
     if okg:
-        tests = [t for t, pol in guards_of(pma, gs[0]) if pol]
-        okg = bool(tests) and isinstance(tests[-1], ast.Name)
-        if okg:
-            flag = tests[-1].id
-            sets = [n for n in own_nodes(app.node) if isinstance(n, ast.Assign) and u(n.targets[0]) == flag and u(n.value) == "True"]
-            okg = len(sets) == 2 and all(any(names[i] in u(t) for t, pol in guards_of(pma, s) for i in (0, 1, 2, 3)) for s in sets)
+        # along every path the features are resampled exactly when a warp grid was built on that path, and a warp grid is
+        # only built under a test of its own (centre, shift) slots - whether the 'a warp was drawn' fact is kept in a flag
+        # or read off the grids being None
+        def ev3(n):
+            if isinstance(n, ast.Call) and call_name(n) == "warp_1d_grid":
+                return "WARP"
+            if isinstance(n, ast.Call) and call_name(n).endswith("grid_sample"):
+                return "RESAMPLE"
+            return None
+        wpaths = PathEnumerator(ev3, exc_edges=False).paths(app.node.body)
+        mism = [p_ for p_ in wpaths if p_.exit in ("return", "fall") and (("RESAMPLE" in p_.labels()) != ("WARP" in p_.labels()))]
+        wcalls = [c for c in own_nodes(app.node) if isinstance(c, ast.Call) and call_name(c) == "warp_1d_grid"]
+        slot_guarded = all(any(any(names[i] in u(t) for i in (0, 1, 2, 3)) for t, pol in guards_of(pma, c) if pol) for c in wcalls)
+        okg = not mism and len(wcalls) == 2 and slot_guarded
     col.ob("G10", "S4", f"{rel}::spec_augment_apply_parameters::resample-only-if-a-warp-was-drawn", okg,
            "grid_sample is not guarded by a flag that is set exactly where a non-empty warp parameter is present (without a "
            "warp every unmasked entry must stay bit-identical)", rel, app.line)
@@ -294,6 +302,14 @@ def run(ctx: Ctx):
     # widths: long(RAND * (cap + 1 - eps)); caps: time = floor(min(L * proportion, max_time_mask)), freq = min(max_freq_mask, F)
     wt = [v for v in defs_of(draw, dn[5]) if "torch.empty(0)" not in u(v)]
     wf = [v for v in defs_of(draw, dn[7]) if "torch.empty(0)" not in u(v)]
+    # a width may be built in several statements (draw, then zero the masks beyond the allowed number): look at the fullest
+    # expansion; the cap variables (`<cap> + (1 - eps)`) stay names, they are looked up below
+    from sa.inline import Inliner as _InlW
+    _capc = {x.left.id for x in ast.walk(draw.node) if isinstance(x, ast.BinOp) and isinstance(x.op, ast.Add)
+             and isinstance(x.left, ast.Name) and om and u(x.right) == om}
+    _inlw = _InlW(draw.node, keep=_capc | ({om} if om else set()))
+    wt = sorted((_inlw.expand(v) for v in wt), key=lambda e: -len(u(e)))
+    wf = sorted((_inlw.expand(v) for v in wf), key=lambda e: -len(u(e)))
     capn = None
     okwf = okwt = False
     if wf and wt and om:
